@@ -25,7 +25,7 @@ EXPLANATION = (
     " (R10) declared raw sizes: the uncompressed_size a writer Block is built with derives from a len() that is not downstream of a codec encode call (genuine defect F35, repaired: the fqzcomp arm declared the compressed length)."
     " (R11) sentinel vs terminator: the marker written for an unnamed record is free of the terminator of the NUL-terminated name series and is the marker the reader maps back to None (genuine defect F38, repaired). (R12) the predicate that raises the file version to 3.1 names every CRAM 3.1 codec and is asked about every encoder slot of the map (genuine defect F39, repaired)."
     " (R13) the TLEN sign belongs to the leftmost segment: resolve_mates compares alignment starts before it assigns +TLEN / -TLEN (genuine defect F40, repaired)."
-    " (R14) declared lengths: itf8_size_of agrees with the number of bytes write_itf8 emits on every one of the 33 bit-length classes of an i32 (A11 bit-class interpreter over the MIR of both; classes using an unmodelled construct are not decided). (R15) memo coherence: a loop-carried memo in noodles_cram updates its key only where the value was refreshed or found equal (0 memos today; round-7 seed). (R16) the substitution-matrix row is sorted as a whole.")
+    " (R14) declared lengths: itf8_size_of agrees with the number of bytes write_itf8 emits on every one of the 33 bit-length classes of an i32 (A11 bit-class interpreter over the MIR of both; classes using an unmodelled construct are not decided). (R15) memo coherence: a loop-carried memo in noodles_cram updates its key only where the value was refreshed or found equal (0 memos today; round-7 seed). (R16) the substitution-matrix row is sorted as a whole. (R17) TLEN of attached mates is 0 behind a comparison of the segments\u2019 reference ids (genuine defect F65, repaired).")
 ASSUMPTIONS = ["flate2 Crc/CrcReader/CrcWriter compute CRC32 of exactly the bytes passed through", "md5 crate",
                "function-stem pairing (read_x <-> write_x) reflects the symmetric structure of the two record codecs (floor-checked)"]
 NOT_DECIDED = ["record equality: feature/CIGAR/base reconstruction, mate resolution, every encoder option x codec",
@@ -282,6 +282,44 @@ def run(ctx):
                               "no longer the order the writer codes with, and reads with such a substitution decode to the wrong base", f16.loc(b16))
             else:
                 ctx.ok("C07.R16", f16.key, "the row is sorted as a whole", f16.loc(b16))
+
+    ctx.rule("C07.R17", "TLEN of mates stored attached is recomputed only for segments on the SAME reference sequence: resolve_mates compares the "
+                        "reference_sequence_id fields of the segments and stores 0 on the differs edge (SAM: TLEN is 0 for segments mapped to "
+                        "different references; genuine defect F65, repaired: 0/0 read back as 21/-21)")
+    f17 = ctx.anchor("C07.R17", "noodles_cram::io::reader::container::slice::resolve_mates")
+    if f17 is not None:
+        ctx.saw_fn(f17)
+        hit17 = None
+        for b17, c17 in f17.calls():
+            if not re.search(r"cmp::PartialEq(<.*>)?>?::(ne|eq)$", c17.get("f") or "") or len(c17["args"]) != 2:
+                continue
+            both = True
+            for a in c17["args"]:
+                l = C.op_local(a)
+                d1 = C.single_def(f17, l) if l is not None else None
+                pl = d1[3][2] if d1 is not None and d1[0] == "=" and d1[3][0] == "ref" else None
+                if not (pl and any(isinstance(p_, list) and p_[0] == "f" and p_[2] == "reference_sequence_id" for p_ in pl[1])):
+                    both = False
+            if not both:
+                continue
+            nxt = c17.get("t")
+            t17 = f17.blocks[nxt]["t"] if nxt is not None else None
+            if not t17 or t17[0] != "sw":
+                continue
+            region = set()
+            for _v, tg in t17[2]:
+                region |= {x for x in range(len(f17.blocks)) if C.dominates(f17, tg, x)}
+            region |= {x for x in range(len(f17.blocks)) if C.dominates(f17, t17[3], x)}
+            zero = [bi for bi in region for st in f17.blocks[bi]["s"] if st[0] == "=" and st[2][0] == "use" and
+                    (C.op_const(st[2][1]) or {}).get("v") == 0 and (C.op_const(st[2][1]) or {}).get("ty") == "i32"]
+            if zero:
+                hit17 = (b17, zero[0])
+        if hit17:
+            ctx.ok("C07.R17", f17.key, "the template length is set to 0 behind the comparison of the segments' reference ids", f17.loc(hit17[1]))
+        else:
+            ctx.violation("C07.R17", "C07.R17/tlen-across-references/" + f17.key,
+                          "resolve_mates recomputes TLEN from the positions of attached mates without comparing their reference sequence ids: "
+                          "a pair spanning two references reads back with the distance between two unrelated coordinates instead of 0", f17.loc())
 
     ctx.rule("C07.R7", "A7 span of a template: the reader recomputes TLEN of in-slice mates from min(start of both segments) and max(END of both "
                        "segments) — each alignment_end() result feeds the maximum")
